@@ -254,6 +254,8 @@ LITERALS = [("1", "int"), ("0x00", "bin"), ("[]", "[]"), ("Ok", "Ok"), ("A", "A"
             ("Cons[0x00, Nil]", "Cons[bin, Nil]"), ("Cons[1, Cons[2, Nil]]", "Cons[int, Cons[int, Nil]]"),
             ("Leaf", "Leaf"), ("Node[Leaf, 1, Leaf]", "Node[Leaf, int, Leaf]"), ("Root", "Root"),
             ("Path[1, Root]", "Path[int, Root]"), ("A[Nil]", "A[Nil]"), ("A[Cons[0x00, Nil]]", "A[Cons[bin, Nil]]"),
+            ("End", "End"), ("Link[next: 5]", "Link[next: int]"), ("Link[next: End]", "Link[next: End]"),
+            ("Link[next: Link[next: End]]", "Link[next: Link[next: End]]"), ("Link[next: Link[next: 5]]", "Link[next: Link[next: int]]"),
             ("[Nil, Nil]", "[Nil, Nil]"), ("[Cons[1, Nil], Cons[0x00, Nil]]", "[Cons[int, Nil], Cons[bin, Nil]]")]
 
 
@@ -268,8 +270,6 @@ def main():
             if s not in seen:
                 seen.add(s)
                 corpus.append((n, s))
-    else:
-        gen = [g for i, g in enumerate(gen) if i % 3 == rep.seed % 3]
     # function-valued programs in which Ok / nil / user tuples built inside the function reach a
     # partial-type test that no signature names (the tables of the shaken program must still
     # accept them)
